@@ -42,9 +42,12 @@ def run_script(lines, name, timeout=3000):
     return out, p
 
 
-def to_events(recs, hist_tail=None):
+def to_events(recs, hist_tail=None, files=None):
+    """files: {path: text} of readable, valid program files; the `enter` that submits `load <path>` carries the text as `ftext`"""
     evs = []
+    prev_text = []
     for i, r in enumerate(recs, 1):
+        typed, prev_text = prev_text, (r["ed"]["text"] if r.get("ed") else [])
         op = r["op"].split()
         kind = op[0]
         if kind in ("size", "draw", "sweep"):
@@ -65,6 +68,11 @@ def to_events(recs, hist_tail=None):
         ev["m"] = {"regs": m["regs"], "st": m["st"], "maddr": m["maddr"], "ir": m["ir"], "inr": m["inr"], "outr": m["outr"], "asm": m["asm"],
                    "autorun": m["autorun"], "part": m["part"], "di1": m["di1"], "temp": mv_of_bits(m["temp_bits"]), "ai1": mv_of_bits(m["ai1_bits"]),
                    "ai2": mv_of_bits(m["ai2_bits"]), "dasr": m["dasr"], "ramsum": m["ramsum"], "misr": m["misr"]}
+        if files and kind == "enter":
+            line = "".join(chr(c) for c in typed).lstrip(" \t")
+            path = line[4:].lstrip(" \t")              # the path is the rest of the line, trailing blanks included
+            if line[:4].lower() == "load" and line[4:5] in (" ", "\t") and path in files:
+                ev["ftext"] = [ord(c) for c in files[path]]
         if hist_tail is not None:
             # long sessions: the history is logged as its length and its last entries (the specification compares exactly these)
             h = ev["ed"].pop("hist")
